@@ -463,21 +463,33 @@ def smin(a, b):
     return a if a <= b else b
 
 
+def _allbool(xs):
+    return all(isinstance(x, (bool, np.bool_)) for x in xs)
+
+
 def AND(*xs):
+    if _allbool(xs):
+        return all(bool(x) for x in xs)
     ts = [bterm(x) for x in xs]
     return SymBool(z3.And(*ts)) if ts else True
 
 
 def OR(*xs):
+    if _allbool(xs):
+        return any(bool(x) for x in xs)
     ts = [bterm(x) for x in xs]
     return SymBool(z3.Or(*ts)) if ts else False
 
 
 def NOT(x):
+    if _allbool([x]):
+        return not bool(x)
     return SymBool(z3.Not(bterm(x)))
 
 
 def IMPLIES(a, b):
+    if _allbool([a, b]):
+        return (not bool(a)) or bool(b)
     return SymBool(z3.Implies(bterm(a), bterm(b)))
 
 
